@@ -4,6 +4,7 @@
 //
 //	rtx  <type> <seed> <depth>            value of <type> generated from <seed>; implementation-only checks
 //	rt   <type> <seed> <depth> <env> <mv> same, and the model encodes <mv> under <env>
+//	rtv  <type> <env> <mv>                explicit value (corpus witnesses); checked like rt
 //	decx <type> <hex>                     arbitrary bytes; implementation-only checks
 //	dec  <type> <hex> <env>               same, and the model decodes the bytes under <env>
 //
@@ -26,22 +27,18 @@ import (
 	"gnoverif/kit"
 )
 
-// covered tells whether the model can follow a value/type: everything in the
-// env is inside the modelled descriptor language.
-func envCovered(env string) bool {
-	return !strings.Contains(env, "A") && !strings.Contains(env, "X32") && !strings.Contains(env, "?")
-}
-
-// envMV computes the env and MV tokens of *T.
-func envMV(rt *regType, pv reflect.Value) (env, mv string, ok bool) {
+// envMV computes the env and MV tokens of *T. ok: the model can follow the
+// value (everything is inside the modelled descriptor language); marsh: the
+// env contains AminoMarshaler nodes (then the model does not decode).
+func envMV(rt *regType, pv reflect.Value) (env, mv string, ok, marsh bool) {
 	e := newEnv()
 	var err error
 	p, _ := safely(func() { mv, err = mvTop(pv, rt.Info, e) })
 	if p || err != nil {
-		return "", "", false
+		return "", "", false, false
 	}
 	env = e.String()
-	return env, mv, envCovered(env)
+	return env, mv, !e.hasUnmodelled, e.hasMarsh
 }
 
 // anyNames lists the concrete type names under interfaces in an MV string.
@@ -100,7 +97,7 @@ func execOp1(toks []string) (string, string) {
 		if len(toks) != 6 {
 			return "err:badop", "-"
 		}
-		env, mv, ok := envMV(rt, pv)
+		env, mv, ok, marsh := envMV(rt, pv)
 		if !ok || env != toks[4] || mv != toks[5] {
 			return "err:badop", "-" // the line's env/value tokens are not the ones of <seed>
 		}
@@ -108,7 +105,31 @@ func execOp1(toks []string) (string, string) {
 			return "err:enc", verdict
 		}
 		rts := "ok"
-		if strings.Contains(env, "M") {
+		if marsh {
+			rts = "skip"
+		} else if strings.HasPrefix(verdict, "VIOL:rt-") {
+			rts = "bad"
+		}
+		return hexOrE(enc.bz) + " rt=" + rts, verdict
+	case "rtv":
+		// rtv <type> <env> <mv>: explicit value (corpus witnesses)
+		if len(toks) != 4 {
+			return "err:badop", "-"
+		}
+		pv, err := buildTop(rt, toks[3])
+		if err != nil {
+			return "err:badop", "-"
+		}
+		env, mv, ok, marsh := envMV(rt, pv)
+		if !ok || env != toks[2] || mv != toks[3] {
+			return "err:badop", "-"
+		}
+		enc, _, verdict := checkRT(rt, pv)
+		if enc.err != nil || enc.panicked {
+			return "err:enc", verdict
+		}
+		rts := "ok"
+		if marsh {
 			rts = "skip"
 		} else if strings.HasPrefix(verdict, "VIOL:rt-") {
 			rts = "bad"
@@ -131,7 +152,7 @@ func execOp1(toks []string) (string, string) {
 // emitRT writes an rt (model-covered) or rtx line for (type, seed, depth).
 func emitRT(w *kit.Out, t *regType, seed uint64, depth int) {
 	pv := genTop(t, seed, depth, true)
-	if env, mv, ok := envMV(t, pv); ok && len(env)+len(mv) < 60000 {
+	if env, mv, ok, _ := envMV(t, pv); ok && len(env)+len(mv) < 60000 {
 		w.Op("rt %s %d %d %s %s", t.Name, seed, depth, env, mv)
 		return
 	}
@@ -141,7 +162,7 @@ func emitRT(w *kit.Out, t *regType, seed uint64, depth int) {
 // emitDec writes a dec (model-covered) or decx line for bytes bz, using the env
 // of the value the bytes were derived from.
 func emitDec(w *kit.Out, t *regType, bz []byte, env string, envOK bool) {
-	if envOK && !strings.Contains(env, "M") && len(env) < 60000 {
+	if envOK && len(env) < 60000 {
 		// the model only knows the concrete types of `env`; if the real decoder
 		// accepts with some other registered type under an interface, do not ask the model.
 		d := decReflect(t, bz)
@@ -179,7 +200,8 @@ func gen(w *kit.Out, r *kit.Rand, tier string) {
 		for i := 0; i < decPer; i++ {
 			seed, depth := r.U64()>>1, 1+r.Intn(3)
 			pv := genTop(t, seed, depth, true)
-			env, _, envOK := envMV(t, pv)
+			env, _, envOK, marsh := envMV(t, pv)
+			envOK = envOK && !marsh
 			e := encReflect(pv)
 			var bz []byte
 			switch {
@@ -287,6 +309,19 @@ func main() {
 			return
 		case "shape":
 			shapeReport()
+			return
+		case "envof": // envof <type> <mv> → the rtv line for an explicit value
+			t := regByName[os.Args[2]]
+			pv, err := buildTop(t, os.Args[3])
+			if err != nil {
+				fmt.Println("error:", err)
+				return
+			}
+			env, mv, ok, _ := envMV(t, pv)
+			fmt.Printf("rtv %s %s %s\n", t.Name, env, mv)
+			if !ok || mv != os.Args[3] {
+				fmt.Println("# note: not canonical / not model-covered; canonical mv:", mv)
+			}
 			return
 		case "show":
 			t := regByName[os.Args[2]]
